@@ -12,6 +12,8 @@ import hippolyzer.lib.base.llanim as llanim
 import hippolyzer.lib.base.mesh as mesh
 import hippolyzer.lib.base.objects as objects
 
+from hippolyzer.lib.base.datatypes import Vector2, Vector3
+
 from vlib.discover import walk
 from vlib.runner import hyp_run
 
@@ -20,7 +22,8 @@ LEVEL = "exploration"
 RULE = ("instances discovered by object-graph reflection from SUBFIELD_SERIALIZERS, templates, llanim, mesh, objects "
         "(distinct by class, wire type, lower, upper, rounding mode, step); for each, EVERY raw value of its 8/16-bit "
         "wire type is decoded and re-encoded (through the adapter and through the reader/writer in both byte orders); "
-        "key-frame times additionally over a sweep of fixed + Hypothesis-generated f32 durations.  A case is "
+        "key-frame times additionally over a sweep of fixed + Hypothesis-generated f32 durations; mesh vertex data additionally "
+        "through its per-LOD domain (generated Min/Max) with every raw value of every component.  A case is "
         "(instance, raw[, duration]); all are distinct by construction; non-trivial = raw value other than the wire "
         "type's minimum.")
 ASSUMPTIONS = [
@@ -401,9 +404,61 @@ def check_time(ctx, key, q, duration):
     return n
 
 
+_DOM_RAWS = np.arange(0x10000, dtype="<u2")
+_DOM_DATA = {"Position": (np.stack([_DOM_RAWS, _DOM_RAWS[::-1], _DOM_RAWS], axis=1).astype("<u2").tobytes(), 3),
+             "TexCoord0": (np.stack([_DOM_RAWS, _DOM_RAWS[::-1]], axis=1).astype("<u2").tobytes(), 2)}
+
+
+def mesh_domain_laws(field, lo, hi):
+    """mesh vertex data is quantised relative to a per-LOD domain: all 65,536 raw values of every component through the real segment
+    codec and positions_from_domain / positions_to_domain"""
+    data, n = _DOM_DATA[field]
+    vec = Vector3 if n == 3 else Vector2
+    dom = {"Min": vec(*lo[:n]), "Max": vec(*hi[:n])}
+    vals = mesh.positions_from_domain(mesh.LOD_SEGMENT_SERIALIZER.deserialize({field: data})[field], dom)
+    out = []
+    first, last = tuple(vals[0]), tuple(vals[-1])
+    want_first = tuple(hi[i] if i == 1 else lo[i] for i in range(n))      # component 1 runs downwards
+    want_last = tuple(lo[i] if i == 1 else hi[i] for i in range(n))
+    if first != want_first or last != want_last:
+        out.append(("mesh.%s-domain:end" % field, "domain %r..%r: raw 0 / 65535 decode to %r / %r" % (lo[:n], hi[:n], first, last)))
+    for i in range(n):
+        col = np.array([v[i] for v in vals])
+        d = np.diff(col)
+        if (d < 0).any() if i != 1 else (d > 0).any():
+            j = int(np.nonzero(d < 0 if i != 1 else d > 0)[0][0])
+            out.append(("mesh.%s-domain:monotonic" % field, "domain %r..%r component %d: not monotonic at row %d" % (lo[:n], hi[:n], i, j)))
+            break
+    back = mesh.LOD_SEGMENT_SERIALIZER.serialize({field: mesh.positions_to_domain(vals, dom)})[field]
+    if bytes(back) != data:
+        a = np.frombuffer(bytes(back), dtype="<u2")
+        b = np.frombuffer(data, dtype="<u2")
+        j = int(np.nonzero(a != b)[0][0]) if len(a) == len(b) else -1
+        out.append(("mesh.%s-domain:roundtrip" % field, "domain %r..%r: raw value at index %d does not survive decode + re-encode" % (lo[:n], hi[:n], j)))
+    return out
+
+
+_DOM_EDGE = [-0.5, 0.5, -0.1, 0.7, 0.1, 0.3, -1.0, 1.0, 0.0, 1e-3, -64.0, 64.0, 1 / 3, 2 / 3, -0.7, 0.9]
+_DOM_FLOAT = st.one_of(st.floats(-1000.0, 1000.0, width=32), st.floats(-1000.0, 1000.0), st.sampled_from(_DOM_EDGE), st.floats(-1.0, 1.0))
+
+
+@st.composite
+def mesh_domain_case(draw):
+    lo, hi = [], []
+    for _ in range(3):
+        a, b = draw(_DOM_FLOAT), draw(_DOM_FLOAT)
+        if abs(a - b) < 1e-3:
+            b = a + draw(st.sampled_from([1e-3, 0.01, 0.1, 1.0, 3.3]))
+        lo.append(min(a, b) + 0.0)
+        hi.append(max(a, b) + 0.0)
+    return {"mesh_domain": draw(st.sampled_from(["Position", "TexCoord0"])), "lo": lo, "hi": hi}
+
+
 def shards(tier):
     th = tier == "thorough"
     sh = [{"kind": "inst", "key": k} for k in discover()]
+    for i in range(4):
+        sh.append({"kind": "mesh_domain", "n": 150 if th else 8})
     sh.append({"kind": "vertex_weights"})
     for k in discover_coords():
         sh.append({"kind": "coord", "key": k})
@@ -497,9 +552,16 @@ def run_shard(ctx, shard):
         hyp_run(ctx, f32, body, shard["n"])
     elif k == "anim_wire":
         _anim_wire(ctx, shard["n"])
+    elif k == "mesh_domain":
+        def body(case):
+            ctx.bulk(3 * 0x10000, 3 * 0x10000 - 1, {"mesh_domains": 1}, case)
+            return mesh_domain_laws(case["mesh_domain"], case["lo"], case["hi"])
+        hyp_run(ctx, mesh_domain_case(), body, shard["n"], label="mesh-domain")
 
 
 def replay(ctx, case):
+    if isinstance(case, dict) and "mesh_domain" in case:
+        return mesh_domain_laws(case["mesh_domain"], case["lo"], case["hi"])
     if isinstance(case, dict) and "coord" in case:
         o, _ = discover_coords()[case["coord"]]
         check_coord(ctx, case["coord"], o)
